@@ -275,6 +275,7 @@ def judge_radial(name, seed, kind):
                 pass
     else:
         k = max(1, len(n) // 2)
+        nrng_ = np.random.default_rng(seed)
         # sparse exteriors: in some directions there is no 0.5 surface at all; an independent float64 evaluation of
         # interior/(interior+exterior+background) (tabulated densities, zero beyond the table) decides what a surface point is
         variants = [(n[:k], p[:k], n[k:], p[k:])]
@@ -282,8 +283,12 @@ def judge_radial(name, seed, kind):
         for z in (2, 11, 17, 8):
             variants.append((n, p, np.array([z]), far[None, :]))
         variants.append((n, p, n.copy(), p + np.array([3.4, 0.2, 0.1]) + (p.max(axis=0) - p.min(axis=0)) * np.array([1.0, 0, 0])))
+        # diffuse atoms (alkali / alkaline-earth metals): their tabulated density at the end of the table (10.58 A) is still far above a
+        # tiny background, so away from the single neighbour the weight stays near 1 up to the table end and drops to 0 there
+        zd = int(nrng_.choice([3, 11, 19, 20, 37]))
+        variants.append((np.array([zd]), np.zeros((1, 3)), np.array([8]), np.array([[3.0, 0.0, 0.0]])))
         for (ni, pi_, ne, pe) in variants:
-            for bg in (0.0, 1e-5):
+            for bg in (0.0, 1e-5, 1e-12, 1e-9):       # also backgrounds far below the tabulated density at the end of the table
                 o2 = np.mean(pi_, axis=0, dtype=np.float32)
                 try:
                     stockholder_weight_descriptor(sht, ni, pi_, ne, pe, background=bg)
@@ -355,6 +360,35 @@ def judge_crystal(fname, seed):
     d1 = c2.molecular_shape_descriptors(l_max=4)
     if d0.shape != d1.shape:
         return f"{fname}: {d0.shape[0]} unique molecules before and {d1.shape[0]} after an origin shift + atom permutation"
+    # the same infinite structure described in another, strongly oblique cell of the same lattice (a' = a+b, c' = c+b) and with the origin
+    # moved: every molecule has the same neighbours, so the set of descriptors is the same
+    M = np.array([[1, 1, 0], [0, 1, 0], [0, 1, 1]], dtype=float)
+    from chmpy.crystal import UnitCell
+    uc3 = UnitCell(M @ np.asarray(p1.unit_cell.direct, dtype=float))
+    # first the environments themselves (cheap, exact): the same molecules have the same number of neighbour atoms in every description
+    envA = sorted(len(e_[1]) for e_ in p1.molecule_environments(radius=3.8))
+    for _ in range(16):
+        cart3 = p1.to_cartesian(np.asarray(asym.positions, dtype=float) + nrng.uniform(0, 1, size=3))
+        c3 = Crystal(uc3, SpaceGroup(1), AsymmetricUnit(list(asym.elements), uc3.to_fractional(cart3)))
+        envB = sorted(len(e_[1]) for e_ in c3.molecule_environments(radius=3.8))
+        if envA != envB:
+            return (f"{fname}: described in the cell (a+b, b, c+b) with the origin moved, the molecules have {envB} neighbour atoms within 3.8 A instead of "
+                    f"{envA}: the crystal environment of a molecule (and with it its shape descriptor) depends on the description of the lattice")
+    dA38 = p1.molecular_shape_descriptors(l_max=4, radius=3.8)
+    for rad in (3.8,) * 2:          # two more origin shifts: where the molecules sit relative to the cell faces decides which cells are searched
+        cart3 = p1.to_cartesian(np.asarray(asym.positions, dtype=float) + nrng.uniform(0, 1, size=3))
+        c3 = Crystal(uc3, SpaceGroup(1), AsymmetricUnit(list(asym.elements), uc3.to_fractional(cart3)))
+        dA = dA38
+        dB = c3.molecular_shape_descriptors(l_max=4, radius=rad)
+        if dA.shape != dB.shape:
+            return f"{fname}: {dA.shape[0]} unique molecules in the reduced cell and {dB.shape[0]} in the sheared description of the same lattice"
+        used = set()
+        for a in dA:
+            best = min((j for j in range(len(dB)) if j not in used), key=lambda j: err_of(a, dB[j], 4))
+            if err_of(a, dB[best], 4) > 5e-4:
+                return (f"{fname}: molecular shape descriptor (radius {rad}) changes by {err_of(a, dB[best], 4):.3g} when the same structure is described in the "
+                        f"cell (a+b, b, c+b) with another origin — the molecule's environment is not the same set of atoms")
+            used.add(best)
     # the same crystal object asked again with another environment radius answers like a crystal that is asked for the first time
     for rad in (3.8, 9.0):
         again = p1.molecular_shape_descriptors(l_max=4, radius=rad)
